@@ -617,3 +617,20 @@ Proof.
   - destruct l as [|x t]; [left; reflexivity|right]. apply tail_clean_p4; [exact H4|exact (rh_wf _ _ _ _ _ _ R)|discriminate].
   - apply Forall_forall. intros sct _. apply nm_p4. exact H4.
 Qed.
+
+(* ---- C01 / C02 across a reopen (payload sizes >= 4: unconditional) ---- *)
+Theorem reopen_then_read p fs s uhdr name popt hdropt cb l : 4 <= p ->
+  let header := params_to_text BSgen.Consts.version (N.of_nat p) ++ uhdr in
+  RepH fs s p (outer header) (outer []) l ->
+  of_name (d_file (s_data s)) = name ++ ext_data -> of_name (ix_file (d_index (s_data s))) = name ++ ext_index ->
+  (len header <= 65535)%N -> (len (encode p l) < 2^64)%N -> (N.of_nat p < 2^64)%N ->
+  (popt = None \/ popt = Some (N.of_nat p)) ->
+  match hdropt with HdrIs e => e = uhdr | HdrAny => True end ->
+  exists s', builder_open name popt hdropt [] cb fs = (fs, Ok (s', uhdr))
+    /\ forall lo hi, read_all s' lo hi fs = (fs, Ok (select lo hi l))
+                     \/ (select lo hi l = [] /\ read_all s' lo hi fs = (fs, Err ERange)).
+Proof.
+  intros H4 header R N1 N2 Hh H64 Hp Hopt HO.
+  destruct (reopen_p4 p fs s uhdr name popt hdropt cb l H4 R N1 N2 Hh H64 Hp Hopt HO) as (s' & E & R' & _).
+  exists s'. split; [exact E|]. intros lo hi. apply (read_all_ok fs s' p _ _ l R' lo hi).
+Qed.
